@@ -7,14 +7,14 @@ accop = st.fixed_dictionaries({"f": st.sampled_from(["acc", "getacc", "fop", "ca
                               optional={"op": st.sampled_from(rma.OPS), "v": st.integers(0, 40), "noop": st.booleans(), "j": st.integers(0, 2),
                                         "hit": st.integers(0, 2)})
 
-plan = st.fixed_dictionaries({"t": st.integers(0, 3), "i": st.integers(0, 7),
-                              "kind": st.sampled_from(["put", "get", "accseq", "accseq", "accmulti", "putget", "rmw"])},
+plan = st.fixed_dictionaries({"t": st.sampled_from([0, 0, 0, 1, 1, 2, 3]), "i": st.sampled_from([0, 0, 0, 1, 1, 2, 3, 5, 7]),
+                              "kind": st.sampled_from(["put", "get", "accseq", "accseq", "accmulti", "putget", "rmw", "bulkput", "bulkget"])},
                              optional={"c": st.integers(1, 3), "o": st.lists(st.integers(0, 3), min_size=1, max_size=4), "v": st.integers(0, 40),
                                        "ops": st.lists(accop, min_size=1, max_size=4), "op": st.sampled_from(rma.COMMUTATIVE),
                                        "order": st.integers(0, 1), "fl": st.integers(0, 1), "req": st.booleans()})
 
-round_ = st.fixed_dictionaries({"mode": st.sampled_from(["fence", "lock", "lock", "lockall", "lockshared"]),
-                                "plans": st.lists(plan, min_size=1, max_size=6)},
+round_ = st.fixed_dictionaries({"mode": st.sampled_from(["fence", "lock", "lock", "lock", "lockall", "lockshared"]),
+                                "plans": st.one_of(st.lists(plan, min_size=1, max_size=2), st.lists(plan, min_size=1, max_size=6))},
                                optional={"picks": st.lists(st.integers(0, 5), min_size=1, max_size=6), "chain": st.booleans(), "a0": st.booleans(),
                                          "a1": st.booleans(), "fa": st.booleans(), "req": st.booleans()})
 
@@ -23,12 +23,13 @@ round_ = st.fixed_dictionaries({"mode": st.sampled_from(["fence", "lock", "lock"
 def cases(draw, maxrounds):
     return {"np": draw(st.sampled_from([2, 2, 3, 3, 4])), "W": draw(st.sampled_from([2, 3, 4, 6, 8])),
             "ty": draw(st.sampled_from(["UNSIGNED", "UNSIGNED", "UNSIGNED_LONG", "INT"])),
-            "unit": draw(st.sampled_from(["elem", "byte"])), "alloc": draw(st.booleans()), "init": draw(st.integers(0, 20)),
+            "unit": draw(st.sampled_from(["elem", "byte"])), "bulk": draw(st.sampled_from([0, 0, 4096, 16384])), "alloc": draw(st.booleans()), "init": draw(st.integers(0, 20)),
             "rounds": draw(st.lists(round_, min_size=1, max_size=maxrounds))}
 
 
 class C34(core.Prop):
     id = "C34"
+    ready = True
     drivers = ["mpi2_interp"]
     sizes = {"quick": 400, "thorough": 12000}
     max_workers = 6
@@ -44,8 +45,10 @@ class C34(core.Prop):
             "flush, Put(fetched + addend) inside their own exclusive epoch on one element: final value = sum, fetched values = partial sums "
             "of SOME serial order); request-based variants (Rput...) + Wait in passive "
             "rounds.  The calls of an origin towards one target are interleaved in a drawn order that keeps every plan's own order.  "
-            "After every round: barrier, every rank reads its window (inside an exclusive lock on itself after passive rounds), the "
-            "fetched values are collected, barrier.  Oracle: interpreter over lists of integers (wrapping unsigned arithmetic; signed "
+            "With a bulk area (4096 / 16384 extra elements after the small ones, described by the seed of a pattern): bulkput / bulkget of the "
+            "whole area, long transfers that are still in flight when a broken synchronisation call returns.  After a fence round every "
+            "rank reads its window AT ONCE; after a passive round: barrier, then the read inside an exclusive lock on itself; the fetched "
+            "values are collected; barrier.  Oracle: interpreter over lists of integers (wrapping unsigned arithmetic; signed "
             "type restricted to small values, no PROD).  Non-trivial: two different origins update the same target element in "
             "successive (or concurrent, serialised by the lock) EXCLUSIVE lock epochs.  Distinct = distinct canonical JSON.")
     assumptions = ["conflicting accesses that MPI leaves undefined (Put/Get overlapping another access of the same epoch without a flush, "
@@ -56,6 +59,22 @@ class C34(core.Prop):
 
     def strategy(self, tier):
         return cases(5 if tier == "quick" else 8)
+
+    def fixed_cases(self, tier):
+        # a lonely long transfer per synchronisation mode: the target (resp. origin) has nothing else to wait for, so a
+        # synchronisation call that returns before the transfer is complete shows at once
+        res = []
+        for np_ in (2, 3):
+            for mode in ("fence", "lock", "lockshared", "lockall"):
+                for kind in ("bulkput", "bulkget"):
+                    for chain in (False, True):
+                        if chain and mode != "fence":
+                            continue
+                        rounds = [{"mode": mode, "plans": [{"t": 0, "i": 0, "kind": kind, "o": [np_ - 1]}], "chain": chain}]
+                        if chain:
+                            rounds.append({"mode": "fence", "plans": [{"t": 1, "i": 0, "kind": "get", "o": [0]}]})
+                        res.append({"np": np_, "W": 2, "ty": "UNSIGNED", "unit": "elem", "alloc": False, "init": 0, "bulk": 16384, "rounds": rounds})
+        return res
 
     def check(self, case):
         oc = core.Outcome()
